@@ -37,16 +37,19 @@ RULE = ('three lock-step case kinds. single: histories over Req/OpenPool/Start/C
 TRUSTED = ['mock provider / mock sinks / controlled open results in harness/props/c16.py (environment contract of DESIGN.md '
            'section 10: created Idle, Open completes only when told, Closed is final)',
            'CPython reference counting and weakref.WeakValueDictionary (an entry disappears when the last holder drops its reference)',
-           'gevent cooperative scheduling: greenlets switch only at Open().wait() inside the pool; gevent RLock is FIFO']
+           'gevent cooperative scheduling: greenlets switch only at Open().wait() inside the pool; gevent RLock is FIFO',
+           'SpawnProxy installed as scales.asynchronous.gevent (defers the start of the greenlet created by AsyncResult.Run while pool.Open() is called)']
 ASSUMPTIONS = ['the underlying sinks obey the environment contract (Idle until the open completes; a failed open, fault or Close '
                'makes the sink Closed for ever); the provider returns a new Idle sink or raises',
-               'spawned notification greenlets (Observable.Set, AsyncResult.Run) run before the next label; waiter wake-up order '
-               'is arbitrary (Resume labels), which includes gevent\'s FIFO order',
+               'notification greenlets spawned by Observable.Set run before the next label; the greenlet spawned by pool.Open() '
+               'starts at its own Start label (any later point); waiter wake-up order is arbitrary (Resume labels), which '
+               'includes gevent\'s FIFO order',
                'C16_same_key is stated over the explicit holder set of Model/Shared.v; weak-reference timing of CPython is trusted']
 
 MANIFEST = {
-    'text': ('Theorems C16_at_most_one, C16_share, C16_replace, C16_refcount, C16_refcount_holders, C16_same_key hold for every '
-             'label sequence (requests, pool opens/closes, open completions, faults, any wake-up order of blocked requests; '
+    'text': ('Theorems C16_at_most_one, C16_share, C16_share_requests, C16_replace, C16_refcount, C16_refcount_holders, C16_same_key hold for every '
+             'label sequence (requests, pool opens/closes, late start of the greenlet pool.Open() spawns, open completions, faults, '
+             'any wake-up order of blocked requests; '
              'Open/Close by any holders; Create/DropHolder) of the Gallina transcriptions of SingletonPoolSink, RefCountedSink and '
              'SharedSinkProvider; the transcriptions are compared step by step with the real classes on ~3k (quick) / ~60k '
              '(thorough) generated histories per run.'),
